@@ -253,8 +253,12 @@ func bigBatches(s *subject, nMin, nMax int, reduced bool) bigStats {
 				seen := map[string]bool{}
 				ev := &env{s: s}
 				for _, x := range b {
-					if !seen[string(x.k)] || x.k == nil {
-						seen[string(x.k)] = true
+					sk := string(x.k)
+					if x.k == nil {
+						sk = "\x00<nil>"
+					}
+					if !seen[sk] {
+						seen[sk] = true
 						ev.keys = append(ev.keys, x.k)
 					}
 				}
